@@ -234,6 +234,32 @@ def mk_tree(spec):
     return DerivationTree(label, tuple(mk_tree(c) for c in children))
 
 
+def share_sibling_ids(tree):
+    """The same tree in which sibling nodes with equal labels carry ONE id (ISLa does not require unique ids:
+    DerivationTree.replace_path keeps the id of the node whose child is replaced, so an instantiated copy of a
+    template and the template itself share an id).  Returns None if no two siblings have the same label."""
+    from isla.derivation_tree import DerivationTree
+    found = False
+
+    def rec(n, forced_id):
+        nonlocal found
+        kids = n.children
+        if kids is not None:
+            first = {}
+            new = []
+            for c in kids:
+                if is_nonterminal(c.value) and c.value in first:
+                    found = True
+                    new.append(rec(c, first[c.value]))
+                else:
+                    first.setdefault(c.value, c.id)
+                    new.append(rec(c, c.id))
+            kids = tuple(new)
+        return DerivationTree(n.value, kids, id=forced_id)
+    out = rec(tree, tree.id)
+    return out if found else None
+
+
 # --------------------------------------------------------------------------
 # [decoder] support: a bounded vector of choice integers <-> a derivation tree of a fixed grammar
 
